@@ -52,7 +52,7 @@ func (e *Env) existsIn(alt []BLit, arg ssa.Value, pol bool) (bool, ssa.Value) {
 		if !is || (bl.Pol == positive) != pol {
 			continue
 		}
-		a := bl.Val(c.Call.Args[len(c.Call.Args)-1])
+		a := ir.Deep(bl.Val(c.Call.Args[len(c.Call.Args)-1]))
 		if arg == nil || a == ir.Deep(arg) {
 			return true, a
 		}
@@ -379,6 +379,19 @@ func c18AtomicSave(e *Env, update *ssa.Function, spec ssa.Value) {
 					}
 					if !found {
 						okAfter = false
+					}
+				}
+				// the accumulate-the-first-error style: no single test names the write's
+				// error, but assuming it is not nil the rename cannot be reached
+				if !okAfter {
+					if wc, isC := w.(*ssa.Call); isC && wc.Parent() == rs.Parent() {
+						for _, ref := range *wc.Referrers() {
+							if ex, isE := ref.(*ssa.Extract); isE && ex.Index == wc.Call.Signature().Results().Len()-1 {
+								if !ir.ReachableAssuming(ex, rs, map[ssa.Value]bool{ex: true}) {
+									okAfter = true
+								}
+							}
+						}
 					}
 				}
 			}
